@@ -487,7 +487,7 @@ pub fn run(args: &Args, out: &mut Out) {
             .collect();
         // expected length of the buffer = the encodings of the accepted frames
         let total: usize =
-            frames.iter().filter(|f| f.data.len() <= MAX_FRAME_SIZE).map(|f| encode_real(f).len()).sum();
+            frames.iter().filter(|f| f.data.len() <= MAX_FRAME_SIZE).map(|f| uvi(f.num << 3).len() + uvi(f.data.len() as u64).len() + f.data.len()).sum();
         ops.push("decs -".into());
         if total <= 200 {
             ops.push(format!("decs {}", vec!["1"; total].join(",")));
